@@ -102,7 +102,8 @@ prop('C03',
 prop('C07',
      [('R00.dyn', RG.rule_no_dynamic), ('R07.i', RD.rule_mutators), ('R07.g', RD.rule_grid),
       ('R07.t', RD.rule_roundtrip), ('R07.l', RD.rule_linearity), ('R08.t', RD.rule_prefactors),
-      ('R07.m', RD.rule_matrixarray_transforms), ('R13.3', RM.rule_get_copy), ('R07.v', RG.rule_reshape_stores)],
+      ('R07.m', RD.rule_matrixarray_transforms), ('R13.3', RM.rule_get_copy), ('R07.v', RG.rule_reshape_stores),
+      ('R07.j', RD.rule_two_domains)],
      'Static analysis of pyPRISM/core/Domain.py: the constructor and the three property setters are abstractly '
      'interpreted with symbolic length/spacings; after each mutator every grid attribute (_dr,_dk,_length,r,k,DST '
      'coefficient arrays,long_r) must equal, as a canonical term, that of a freshly constructed Domain with the same '
@@ -326,6 +327,20 @@ prop('C04',
      'conventions, not a shape of the code) and "equal to the accuracy of two converged solves".')
 
 
+_ANCHORS = {}
+
+
+def _anchor_files(pid):
+    if not _ANCHORS:
+        import json as _json
+        import os as _os
+        from .report import VERIF as _V
+        for line in open(_os.path.join(_V, 'properties.jsonl')):
+            rec = _json.loads(line)
+            _ANCHORS[rec['id']] = set(rec.get('anchors', {}).get('files', []))
+    return _ANCHORS.get(pid, set())
+
+
 def run(pid, tier, repo, seed=0, replay=None, write=True):
     if pid not in PROPS:
         print('ANALYSIS-ERROR property=%s: no check is registered for this property' % pid)
@@ -345,6 +360,10 @@ def run(pid, tier, repo, seed=0, replay=None, write=True):
     _L.FLOAT_PIPELINE = pid in ('C01', 'C05', 'C06')
     for rid, fn in spec['rules']:
         ctx.run(rid, fn)
+    # the call interface of the files this property is anchored in (shared rule, restricted per property)
+    from .rules import signatures as _SG
+    files = _anchor_files(pid)
+    ctx.run('R00.sig', lambda c: _SG.rule_signatures(c, files=files))
     if tier == 'thorough' and replay is None:
         from . import thorough
         thorough.run(ctx, repo)
